@@ -141,9 +141,16 @@ func run(c *harness.Ctx, i int) {
 
 	y := dsu.NewYielder(ymode, uint64(rng.Int63()))
 	var parked int32
-	if park != "" {
+	var hookMu sync.Mutex
+	var hookLog []hookEv
+	if park != "" || write {
 		y.OnHit = func(point string, n int64) {
-			if point == park && atomic.CompareAndSwapInt32(&parked, 0, 1) {
+			if write && strings.HasPrefix(point, "wdedup.") {
+				hookMu.Lock()
+				hookLog = append(hookLog, hookEv{dsu.Goid(), point, dsu.Tick()})
+				hookMu.Unlock()
+			}
+			if park != "" && point == park && atomic.CompareAndSwapInt32(&parked, 0, 1) {
 				// the first goroutine reaching the point waits until another caller arrives (bounded)
 				a := atomic.LoadInt64(&arrivals)
 				for j := 0; j < 600 && atomic.LoadInt64(&arrivals) < a+1; j++ {
@@ -226,6 +233,9 @@ func run(c *harness.Ctx, i int) {
 
 	ups := ms.Calls()
 	shared := check(c, ops, ups, datas, ids)
+	if write && ymode == dsu.YieldTraced {
+		checkReadsOverlappingWrites(c, ops, ups, hookLog)
+	}
 	for key, v := range ms.MaxInFl {
 		if v > 1 {
 			c.Violation("concurrent-upstream", "%d upstream requests for %s in flight at the same time", v, key[:12])
@@ -245,6 +255,61 @@ func run(c *harness.Ctx, i int) {
 	}
 	c.Sample(map[string]interface{}{"queue": map[bool]string{false: "dedup", true: "wdedup"}[write], "callers": k, "ids": nIDs, "park": park, "caller_ops": len(ops), "upstream_calls": len(ups), "shared_results": shared,
 		"history": summarize(ops, ups)})
+}
+
+type hookEv struct {
+	G     int64
+	Point string
+	T     int64
+}
+
+// checkReadsOverlappingWrites: "reads that overlap a de-duplicated write of the same chunk see that chunk". Decided only
+// where the hook trace proves that the read's look-up fell into the life time of the write's in-flight record: the
+// record was registered before the read was called (the writer's afterLoadOrStore hit precedes the read's call event)
+// and the reader passed its look-up before the writer got to markDone (reader's afterLookup hit precedes the writer's
+// afterMarkDone hit; the record is only deleted after that). Such a read must return what the write returned.
+func checkReadsOverlappingWrites(c *harness.Ctx, ops []callerOp, ups []dsu.Call, hooks []hookEv) {
+	for _, us := range ups {
+		if us.Op != "store" {
+			continue
+		}
+		var reg, done int64 = -1, -1
+		for _, h := range hooks {
+			if h.G != us.G {
+				continue
+			}
+			if h.Point == "wdedup.store.afterLoadOrStore" && h.T < us.T0 && h.T > reg {
+				reg = h.T
+			}
+			if h.Point == "wdedup.store.afterMarkDone" && h.T > us.T1 && (done < 0 || h.T < done) {
+				done = h.T
+			}
+		}
+		if reg < 0 || done < 0 {
+			continue
+		}
+		for _, r := range ops {
+			if r.Kind != "get" || r.ID != us.ID || r.T0 < reg {
+				continue
+			}
+			var look int64 = -1
+			for _, h := range hooks {
+				if h.G == r.G && h.Point == "wdedup.get.afterLookup" && h.T > r.T0 && h.T < r.T1 {
+					look = h.T
+					break
+				}
+			}
+			if look < 0 || look > done {
+				continue
+			}
+			c.Count("reads_proven_to_overlap_a_write", 1)
+			if (us.Err == nil) != (r.Err == nil) || (us.Err == nil && r.Chunk == nil) {
+				c.Violation("read-misses-overlapping-write", "caller %d get(%x) [%d,%d] looked up the write queue (t=%d) while the store of that chunk was registered (t=%d) and not yet marked done (t=%d); the store returned %v, the read returned err=%v\nhistory: %s",
+					r.Caller, r.ID[:3], r.T0, r.T1, look, reg, done, us.Err, r.Err, strings.Join(summarize(ops, ups), "; "))
+				return
+			}
+		}
+	}
 }
 
 func mix(x uint64) uint64 {
